@@ -3154,6 +3154,15 @@ class Interp:
                 except OP_ERRORS as exc:
                     self.op_failed(exc)
             return join(*[v.plain() for v in vals], kwargs.get("default", BOT))
+        if name in ("any", "all") and len(args) == 1 and not kwargs:
+            el = self.iterate(a0, None, fr, None)
+            nonempty = bool(a0.refs) and not a0.top and not a0.consts and all(isinstance(n, Seq) and n.items for n in a0.refs)
+            if el.bottom and not el.prov:
+                return const(name == "all")  # nothing to iterate over (in this round of the fixpoint)
+            t, f = self.truth(el)
+            if name == "any":
+                return consts(([True] if t else []) + ([False] if f or not nonempty else []))
+            return consts(([False] if f else []) + ([True] if t or not nonempty else []))
         if name in ("any", "all"):
             return BOOL
         if name == "sum":
@@ -3188,6 +3197,8 @@ class Interp:
             el = self.iterate(args[1], None, fr, None) if len(args) > 1 else BOT
             if not el.bottom and any(isinstance(x, (Func, Lib, Cls)) for x in a0.refs):
                 self.call_value(a0, [el], {}, fr, e, tag="filter")
+            elif a0 == NONE:
+                el = replace(el, consts=frozenset(c for c in el.consts if _truthy(c.v)))  # filter(None, xs) keeps the truthy items
             self.grow_elem(s, el)
             return ref(s)
         if name == "next":
